@@ -471,6 +471,7 @@ func (svr *Service) handleConnection(ctx context.Context, conn net.Conn, interna
 			})
 			conn.Close()
 		} else {
+			verifhook.At("svc.visitorconn.accepted", "proxy", m.ProxyName)
 			_ = msg.WriteMsg(conn, &msg.NewVisitorConnResp{
 				ProxyName: m.ProxyName,
 				Error:     "",
